@@ -157,7 +157,11 @@ C16Targets == {<<p>> : p \in C16Params} \cup {<<p, q>> : p \in {L("a", "T1", "")
 Arrangements(ms) == {[i \in DOMAIN ms |-> ms[p[i]]] : p \in PermSeqs(DOMAIN ms)}
 C16Multisets(t) == IF Len(t) = 1 THEN {<<t[1]>>, <<t[1], t[1]>>, <<t[1], t[1], t[1]>>, <<t[1], t[1], L("c", "T5", "")>>}
                    ELSE {<<t[1], t[2]>>, <<t[1], t[1], t[2]>>, <<t[1], t[2], t[2]>>} \cup (IF Size = 1 THEN {} ELSE {<<t[1], t[1], t[2], t[2]>>})
-C16Family == UNION { { [Scn("C16", F(t, <<>>), ins, <<>>) EXCEPT !.ndef = nd, !.bad = bad] :
+\* same name, different subtypes: distinct keys that share the name slot of the option maps
+C16Sub == { [Scn("C16", F(<<L("b", "T4", "s")>>, <<>>), ins, <<>>) EXCEPT !.ndef = nd] :
+              ins \in Arrangements(<<L("b", "T4", "s"), L("b", "T5", "t"), L("b", "T1", "u")>>) \cup Arrangements(<<L("b", "T4", "s"), L("b", "T4", "t")>>),
+              nd \in 0..3 }
+C16Family == C16Sub \cup UNION { { [Scn("C16", F(t, <<>>), ins, <<>>) EXCEPT !.ndef = nd, !.bad = bad] :
                          ins \in UNION {Arrangements(ms) : ms \in C16Multisets(t)},
                          nd \in 0..3, bad \in {"", "nilvalue", "nilarg"} } : t \in C16Targets }
 
